@@ -20,7 +20,7 @@ func init() {
 	Registry["C04"] = Spec{
 		Fn:          c04,
 		Level:       "fault_enumeration",
-		Rule:        "scenarios {select, select+telemetry, insert with schema exchange, streamed insert (2-3 rounds + tail), LZ4/ZSTD/None variants, external data} x fault points taken from a fault-free pilot run of each scenario: server stream cut (EOF and reset) after every byte k (all k for streams <= 512 B, else 256 sampled) ; client write error after every byte k of the query's bytes; every callback invocation failing (with a plain error, and with an error that wraps a *ch.Exception obtained elsewhere); an exception injected at every gate (before/after each client write, before each server packet, inside each callback, at each internal hook point: query/block encoded/flushed, packet code read, cancel-watch); unknown packet code and each well-formed but unexpected packet kind before each server packet; an input callback failing while the server has gone silent in the middle of a packet; exception together with a write error at an unrelated byte, and an exception consumed while a write is in flight that then fails after 0, 1 or 7 more bytes. Post-state oracle after Do returned an error: the client is closed (then Do/Ping return ErrClosed without any call on the connection), or it is open and the client byte stream is at a packet boundary, a follow-up Ping writes exactly 04 and completes. Do must return. The same post-state rule is applied to a Ping that fails before or while its byte is written (context already done, write error). Non-trivial = the planned fault fired and Do returned an error; distinct = (scenario, fault kind, fault point)",
+		Rule:        "scenarios {select, select+telemetry, insert with schema exchange, streamed insert (2-3 rounds + tail), LZ4/ZSTD/None variants, external data} x fault points taken from a fault-free pilot run of each scenario: server stream cut (EOF and reset) after every byte k (all k for streams <= 512 B, else 256 sampled) ; client write error after every byte k of the query's bytes; every callback invocation failing (with a plain error, and with an error that wraps a *ch.Exception obtained elsewhere); an exception injected at every gate (before/after each client write, before each server packet, inside each callback, at each internal hook point: query/block encoded/flushed, packet code read, cancel-watch); unknown packet code and each well-formed but unexpected packet kind before each server packet; an exception followed by the end of the caller's context while the sender still holds unsent output; an input callback failing while the server has gone silent in the middle of a packet; exception together with a write error at an unrelated byte, and an exception consumed while a write is in flight that then fails after 0, 1 or 7 more bytes. Post-state oracle after Do returned an error: the client is closed (then Do/Ping return ErrClosed without any call on the connection), or it is open and the client byte stream is at a packet boundary, a follow-up Ping writes exactly 04 and completes. Do must return. The same post-state rule is applied to a Ping that fails before or while its byte is written (context already done, write error). Non-trivial = the planned fault fired and Do returned an error; distinct = (scenario, fault kind, fault point)",
 		Assumptions: []string{"a finite read timeout (100 ms) so that a cancelled receive loop ends; exceptions are injected at packet boundaries of the server stream and nothing is sent after them, as a server does"},
 		MinDistinct: 300,
 	}
@@ -72,6 +72,8 @@ func c04(r *core.Run) {
 			if strings.HasPrefix(g, "hook:sender:") || strings.HasPrefix(g, "write:") || strings.HasPrefix(g, "cb:input") {
 				// the sender waits at the gate until the receiver has handled the exception
 				plans = append(plans, &fault{Kind: "exception", Gate: g, Hold: true})
+				// ... and the caller's context ends as well before the sender goes on
+				plans = append(plans, &fault{Kind: "exception+cancel", Gate: g})
 			}
 			if strings.HasPrefix(g, "srv:before:") {
 				plans = append(plans, &fault{Kind: "unknown-packet", Gate: g, K: int64(len(plans))})
